@@ -48,6 +48,7 @@ def run(repo, rep, tier):
     _calls(repo, rep)
     _collector(repo, rep)
     _public(repo, rep)
+    L.state_rule(repo, rep)
 
 
 def _fmt_sites(func, literal_prefix):
